@@ -3978,19 +3978,22 @@ def ob_tour_step(ctx, n_acts, closed):
 # ---------------------------------------------------------------------------------------------------------------------
 # C05 / C01 (group feature): the per-route group tags after the solution-level refresh, and the rule evaluated on them
 
-def ob_group_state(ctx, jobs_per_route):
+def ob_group_state(ctx, jobs_per_route, refresh='solution'):
     """C05 (group tags) + C01 (group rule): `GroupState::accept_solution_state` (real MIR) on a solution whose routes carry
     jobs with a symbolic group each (none / g1 / g2), ARBITRARY previous tags (absent, empty or an outdated set) and an
     arbitrary stale flag per route: afterwards every route's tag set equals the groups of the jobs in its tour - whatever
     the flag and the previous tag were (history independence).  `GroupConstraint::evaluate` (real MIR) for a job of a
     symbolic group on route 0 then rejects exactly when another route serves a job of that group."""
     from symex import AMapV
-    name = f'group_state[jobs per route={"+".join(map(str, jobs_per_route))}]'
+    name = f'group_state[jobs per route={"+".join(map(str, jobs_per_route))}{",after insertion" if refresh == "insertion" else ""}]'
     res = Result(name)
     res.bounds = (f'{len(jobs_per_route)} routes with {jobs_per_route} single jobs; group of every job and of the evaluated job symbolic in {{none, g1, g2}}; previous tag of a route: '
                   'absent / empty / {g-old} / {g1}; stale flag symbolic; complete problem (total job count matches)')
     t0 = time.time()
-    st_fns = ctx.prog.find_method('GroupState', 'accept_solution_state')
+    # refresh = 'solution': the solution-level refresh of all routes; 'insertion': `accept_insertion` for the last job of route 0 (it is
+    # already in the tour, as after apply_insertion_success) while the other routes carry correct tags - the tag of route 0 must again
+    # be the groups of ALL its jobs, whatever it held before; the actors are the shifts of ONE vehicle or different vehicles (symbolic)
+    st_fns = ctx.prog.find_method('GroupState', 'accept_solution_state' if refresh == 'solution' else 'accept_insertion')
     ev_fns = ctx.prog.find_method('GroupConstraint', 'evaluate')
     if len(st_fns) != 1 or len(ev_fns) != 1:
         raise Inconclusive('GroupState::accept_solution_state / GroupConstraint::evaluate not found')
@@ -4021,25 +4024,37 @@ def ob_group_state(ctx, jobs_per_route):
             return ArcV(Cell(env.struct('jobs::Single', places=VecV([]), dimens=StateV(dim))))
         routes, truth, flags = [], [], []
         prevs = []
+        last_job_of_route0, last_group_of_route0 = [], []
         for r, n in enumerate(jobs_per_route):
             acts = [env.activity(IV(0), z, z, FV.max_value(), z, z, has_job=False)]
             jobs, groups = [], []
             for j in range(n):
                 g = z3.Int(f'group_r{r}_j{j}')
-                grp = eng.choose(st, [(g == i, x) for i, x in enumerate(GROUPS)])
+                # in the insertion variant the job that was just inserted (last job of route 0) has a group (otherwise nothing is refreshed)
+                grp = eng.choose(st, [(g == i, x) for i, x in enumerate(GROUPS) if not (refresh == 'insertion' and r == 0 and j == n - 1 and x is None)])
                 s_ = single(f'job_r{r}_{j}', grp)
                 acts.append(env.activity(IV(0), z, z, FV.max_value(), z, z, job=s_))
                 jobs.append(EnumV('jobs::Job', 0, {0: [s_]}))
+                if r == 0:
+                    last_job_of_route0[:] = [jobs[-1]]
+                    last_group_of_route0[:] = [grp]
                 if grp is not None and grp not in groups:
                     groups.append(grp)
             acts.append(env.activity(IV(0), z, z, FV.max_value(), z, z, has_job=False))
-            actor = env.actor(IV(0), z, IV(0), FV.const(1000))
+            if r == 0:
+                sv = z3.Bool('all_routes_are_shifts_of_one_vehicle')
+                env.same_vehicle = eng.split_bool(st, sv)
+            actor = env.actor(IV(0), z, IV(0), FV.const(1000), dimens=StateV({'vehicle_id': Opaque('"v"' if env.same_vehicle else f'"v{r}"')}))
             tour = env.struct('solution::tour::Tour', activities=VecV(acts), jobs=AMapV([(jv, UnitV()) for jv in jobs], True), is_closed=BV(True))
             route = env.struct('route::Route', actor=actor, tour=tour)
             p = z3.Int(f'previous_tag_r{r}')
-            prev = eng.choose(st, [(p == 0, 'absent'), (p == 1, 'empty'), (p == 2, 'old'), (p == 3, 'g1')])
+            if refresh == 'insertion' and r > 0:
+                prev = 'correct'           # the other routes were refreshed before
+                state = StateV({'current_groups': AMapV([(Opaque(f'"{g_}"'), UnitV()) for g_ in groups], True)})
+            else:
+                prev = eng.choose(st, [(p == 0, 'absent'), (p == 1, 'empty'), (p == 2, 'old'), (p == 3, 'g1')])
+                state = StateV({} if prev == 'absent' else {'current_groups': AMapV([] if prev == 'empty' else [(Opaque('"g-old"' if prev == 'old' else '"g1"'), UnitV())], True)})
             prevs.append(prev)
-            state = StateV({} if prev == 'absent' else {'current_groups': AMapV([] if prev == 'empty' else [(Opaque('"g-old"' if prev == 'old' else '"g1"'), UnitV())], True)})
             stale = z3.Bool(f'stale_r{r}')
             cache = env.struct('context::RouteCache', is_stale=BV(stale))
             routes.append(env.struct('context::RouteContext', route=route, state=state, cache=cache))
@@ -4049,23 +4064,32 @@ def ob_group_state(ctx, jobs_per_route):
                          registry=Opaque('registry'), state=StateV())
         cell = Cell(sol)
         feature_state = Agg('struct', [], 'groups::GroupState')
-        eng.exec_fn(st, st_fns[0], [RefV(Cell(feature_state), 0), RefV(cell, 0, True)])
+        if refresh == 'solution':
+            eng.exec_fn(st, st_fns[0], [RefV(Cell(feature_state), 0), RefV(cell, 0, True)])
+        else:
+            if not jobs_per_route[0]:
+                raise Inconclusive('the insertion variant needs a job in route 0')
+            eng.exec_fn(st, st_fns[0], [RefV(Cell(feature_state), 0), RefV(cell, 0, True), IV(0), RefV(Cell(last_job_of_route0[0]), 0)])
         # the job under evaluation (it is the one job of the plan that is not in a tour: required)
         g = z3.Int('group_of_evaluated_job')
         grp = eng.choose(st, [(g == i, x) for i, x in enumerate(GROUPS)])
         job = EnumV('jobs::Job', 0, {0: [single('evaluated', grp)]})
         env.field(cell.v, 'context::SolutionContext', 'required').items.append(job)
         now = env.field(cell.v, 'context::SolutionContext', 'routes').items
-        move = EnumV('context::MoveContext', 0, {0: [RefV(cell, 0), RefV(Cell(now[0]), 0), RefV(Cell(job), 0)]})
+        target_route = 0 if refresh == 'solution' else len(now) - 1
+        move = EnumV('context::MoveContext', 0, {0: [RefV(cell, 0), RefV(Cell(now[target_route]), 0), RefV(Cell(job), 0)]})
         constraint = env.struct('groups::GroupConstraint', total_jobs=IV(total_jobs), code=Agg('struct', [IV(7, 'i32')], 'ViolationCode'))
         verdict = eng.exec_fn(st, ev_fns[0], [RefV(Cell(constraint), 0), RefV(Cell(move), 0)])
         truth.append(prevs)          # carried along for the ordering below (removed again before use)
+        env.last_inserted_has_group = bool(last_group_of_route0 and last_group_of_route0[0] is not None)
         return (truth, grp, now, verdict)
 
     paths = eng.explore(body, max_paths=40000)
     res.paths = len(paths)
     res.functions |= eng.functions_used
     saw_ok = saw_rej = False
+
+    others = (lambda truth: truth[1:]) if refresh == 'solution' else (lambda truth: truth[:-1])
 
     def observable_first(item):
         # paths whose VERDICT is wrong first: they are the ones a native run can show (the tags themselves are crate-private)
@@ -4075,10 +4099,10 @@ def ob_group_state(ctx, jobs_per_route):
         truth, grp, _, verdict = out
         prevs_, truth = truth[-1], truth[:-1]
         rej = verdict.variant()
-        must = grp is not None and any(grp in t for t in truth[1:])
+        must = grp is not None and any(grp in t for t in others(truth))
         wrong = rej is not None and bool(rej) != must
         # a previous tag other than 'absent' cannot be produced through the public API
-        return 0 if (wrong and all(p == 'absent' for p in prevs_)) else 1 if wrong else 2
+        return 0 if (wrong and all(p in ('absent', 'correct') for p in prevs_)) else 1 if wrong else 2
     paths = sorted(paths, key=observable_first)
     for _, out_ in paths:
         if out_ is not None and isinstance(out_[0][-1], list) and out_[0] and all(isinstance(x, str) for x in out_[0][-1]) and len(out_[0]) == len(jobs_per_route) + 1:
@@ -4095,19 +4119,20 @@ def ob_group_state(ctx, jobs_per_route):
             got = sorted(deref_all(k).name.strip('"') for k, _ in tag.entries) if tag is not None else None
             if got != sorted(truth[r]):
                 problems.append(f'route {r}: cached groups {got}, groups of the jobs in the tour {sorted(truth[r])}')
-        must_reject = grp is not None and any(grp in t for t in truth[1:])
+        must_reject = grp is not None and any(grp in t for t in others(truth))
         rejected = verdict.variant()
         if rejected is None:
             res.status, res.detail = 'inconclusive', 'symbolic verdict'
             break
         if bool(rejected) != must_reject:
-            problems.append(f'a job of group {grp} on route 0 is {"rejected" if rejected else "accepted"} while the other routes serve groups {truth[1:]}')
+            problems.append(f'a job of group {grp} offered to route {0 if refresh == "solution" else len(truth) - 1} is {"rejected" if rejected else "accepted"} while the other routes serve groups {others(truth)}')
         if not decide_claim(ctx, res, env, st, z3.BoolVal(not problems), what=f'{name}: ' + '; '.join(problems)[:400]):
             if res.status == 'violated' and res.model is not None:
                 m = res.model
                 GR = (None, 'g1', 'g2')
                 evi = lambda nme: m.eval(z3.Int(nme), model_completion=True).as_long()
-                res.case = {'kind': 'group_state', 'group': grp,
+                res.case = {'kind': 'group_state', 'group': grp, 'refresh': refresh,
+                            'same_vehicle': bool(z3.is_true(m.eval(z3.Bool('all_routes_are_shifts_of_one_vehicle'), model_completion=True))),
                             'routes': [{'groups': [GR[evi(f'group_r{r}_j{j}')] for j in range(n)],
                                         'stale': bool(z3.is_true(m.eval(z3.Bool(f'stale_r{r}'), model_completion=True))),
                                         'previous_tag': ('absent', 'empty', 'old', 'g1')[evi(f'previous_tag_r{r}')]} for r, n in enumerate(jobs_per_route)]}
